@@ -1346,8 +1346,59 @@ func (r *RangeEntry) String() string {
 var errNotExpectedValue = errors.New("not expected value")
 
 func (r *RangeEntry) CheckValue(v val.Value) error {
-	if !r.Exact.Empty() && !r.Exact.isMin && !r.Exact.isMax {
-		if cmp, err := r.Exact.Compare(v); err != nil {
+	return r.checkValue(v, false)
+}
+
+// lowest and highest value of the built-in number types, what "min" and "max" stand for
+// when they are a value of their own ("min | 5..10")
+func builtinBounds(f val.Format, isLength bool) (lo RangeNumber, hi RangeNumber, known bool) {
+	signed := func(min int64, max int64) (RangeNumber, RangeNumber, bool) {
+		return RangeNumber{str: "min", integer: &min}, RangeNumber{str: "max", integer: &max}, true
+	}
+	unsigned := func(max uint64) (RangeNumber, RangeNumber, bool) {
+		var zero int64
+		return RangeNumber{str: "min", integer: &zero}, RangeNumber{str: "max", unsigned: &max}, true
+	}
+	if isLength {
+		return unsigned(math.MaxUint64)
+	}
+	switch f.Single() {
+	case val.FmtInt8:
+		return signed(math.MinInt8, math.MaxInt8)
+	case val.FmtInt16:
+		return signed(math.MinInt16, math.MaxInt16)
+	case val.FmtInt32:
+		return signed(math.MinInt32, math.MaxInt32)
+	case val.FmtInt64:
+		return signed(math.MinInt64, math.MaxInt64)
+	case val.FmtUInt8:
+		return unsigned(math.MaxUint8)
+	case val.FmtUInt16:
+		return unsigned(math.MaxUint16)
+	case val.FmtUInt32:
+		return unsigned(math.MaxUint32)
+	case val.FmtUInt64:
+		return unsigned(math.MaxUint64)
+	}
+	return RangeNumber{}, RangeNumber{}, false
+}
+
+func (r *RangeEntry) checkValue(v val.Value, isLength bool) error {
+	if !r.Exact.Empty() {
+		exact := r.Exact
+		if exact.isMin || exact.isMax {
+			// the keyword as a value of its own is the bound of the built-in type
+			lo, hi, known := builtinBounds(v.Format(), isLength)
+			if !known {
+				return nil
+			}
+			if exact.isMin {
+				exact = lo
+			} else {
+				exact = hi
+			}
+		}
+		if cmp, err := exact.Compare(v); err != nil {
 			return err
 		} else if cmp != 0 {
 			return errNotExpectedValue
@@ -1427,6 +1478,9 @@ func (n RangeNumber) getInt64() int64 {
 	}
 	if n.float != nil {
 		return int64(*n.float)
+	}
+	if n.unsigned != nil && *n.unsigned <= math.MaxInt64 {
+		return int64(*n.unsigned)
 	}
 	panic("invalid number range comparison")
 }
@@ -1558,11 +1612,21 @@ var errOutsideRange = errors.New("value is outside all allowed ranges")
 var errListItemsRangeVaries = errors.New("values in list vary on both inside and outside of comparison")
 
 func (r *Range) CheckValue(v val.Value) error {
+	return r.checkValue(v, false)
+}
+
+// CheckLength is CheckValue for a length restriction: "min" and "max" are 0 and the
+// highest length there is
+func (r *Range) CheckLength(n int) error {
+	return r.checkValue(val.Int64(n), true)
+}
+
+func (r *Range) checkValue(v val.Value, isLength bool) error {
 	if len(r.Entries) == 0 {
 		return nil
 	}
 	for _, e := range r.Entries {
-		if err := e.CheckValue(v); err == nil {
+		if err := e.checkValue(v, isLength); err == nil {
 			return nil
 		}
 	}
